@@ -32,13 +32,14 @@ Ltac setter_start_res f :=
   cbn [rbind]; cbv_records.
 
 (* a single field: `impl b args = fld mask code b` (or b itself) *)
-Ltac field_leaf := clear_unused; small_domain; finite_reflect.
+(* evaluation is bounded: a changed setter must fail its lemma, not hang the build *)
+Ltac field_leaf := clear_unused; small_domain; timeout 300 finite_reflect.
 Ltac setter_field :=
   try reflexivity;
   unfold_head; clear_unused;
   first
-    [ small_domain; finite_reflect
+    [ small_domain; timeout 300 finite_reflect
     | (* same top-level shape as the specification: split at the final `union` *)
       solve [ unfold union, difference, fld; f_equal; [ f_equal; field_leaf | field_leaf ] ]
     | solve [ unfold union, difference, fld; f_equal; field_leaf ]
-    | finite_reflect ].
+    | timeout 300 finite_reflect ].
